@@ -680,6 +680,9 @@ def build_cells(seed, tier, pool):
             cells.append(Cell("nested_parentheses_250", r, "ok", "control", nested_parens(250)))
             cells.append(Cell("nested_parentheses_400", r, "ok", "control", nested_parens(400)))
         cells.append(Cell("choice_of_600_alternatives", r, "ok", "control", ("Zz1 = " + " | ".join("'k%d'" % i for i in range(600)) + ";\n").encode()))
+        if r in ("lib", "cli", "compile_file", "compile_dir"):
+            # very wide, as generated grammars are (keyword lists): whoever walks the alternatives recursively runs out of stack
+            cells.append(Cell("choice_of_20000_alternatives", r, "ok", "control", ("Zz1 = " + " | ".join("'k%d'" % i for i in range(20000)) + ";\n").encode()))
         cells.append(Cell("sequence_of_600_parts", r, "ok", "control", ("Zz1 = " + " ".join("'k%d'" % i for i in range(600)) + ";\n").encode()))
         cells.append(Cell("nested_choice_groups_30", r, "nocrash", "rationale", nested_groups(30), timeout=8))
         cells.append(Cell("nested_parentheses_2000", r, "nocrash", "rationale", nested_parens(2000)))
